@@ -52,6 +52,7 @@ def parseReload (op : List String) : Option String :=
   | _ => none
 
 structure QReq where
+  mid : Option (Nat × String) := none   -- `qr`: a reload to this token lands after the k-th read inside the request
   tmpl : String
   via : String
   method : String
@@ -59,8 +60,8 @@ structure QReq where
   present : Bool
   vals : List String
 
-def parseQ (op : List String) : Option QReq :=
-  match op with
+def parseQ1 (rest : List String) : Option QReq :=
+  match ("q" :: rest) with
   | "q" :: rest =>
     let via := (kv rest "via").getD "router"
     let meth := (kv rest "m").getD "GET"
@@ -76,6 +77,15 @@ def parseQ (op : List String) : Option QReq :=
     | _, _, _, _ => none
   | _ => none
 
+def parseQ (op : List String) : Option QReq :=
+  match op with
+  | "q" :: rest => parseQ1 rest
+  | "qr" :: rest =>
+    match parseQ1 rest, (kv rest "k").bind String.toNat?, kv rest "to" with
+    | some r, some k, some to => if k ≥ 1 then some { r with mid := some (k, dec to) } else none
+    | _, _, _ => none
+  | _ => none
+
 def respStr : Resp → String
   | .data => "class=data"
   | .error st body => s!"class=error st={st} body={enc body}"
@@ -89,6 +99,14 @@ def qStep (s : QSt) (op : List String) (_ : List (List String)) : QSt × Option 
     match parseQ op with
     | none => (s, some "bad-op")
     | some r =>
+      match r.mid with
+      | some (k, to) =>
+        -- the request's single read of the token is its first one; the reload is armed after k ≥ 1
+        -- reads, so it lands after that read: answered against the old token, then the new one is in force
+        let resp := respondUnderReload k s.cfgTok to r.vals
+        let out := if r.via == "router" && !(Refinery.Gen.QueryAuth.queryMethods.contains r.method) then "class=proxied st=200" else respStr resp
+        ({ s with cfgTok := to }, some out)
+      | none =>
       -- the kept middleware instance does not look at the method; the router does
       if r.via == "router" then
         match routerRespond r.method s.cfgTok r.vals with
@@ -129,7 +147,23 @@ def qMon (s : QSt) (op : List String) (exts : List (List String)) (obs : Option 
     -- the property is observed at the /query/* responses of the real router; requests served by the
     -- kept middleware instance (`via=mw`) are compared with the model only (a divergence there is a
     -- broken correspondence obligation, not a failing input of the property)
-    if r.via != "router" then (s, []) else
+    let s' : QSt := match r.mid with
+      | some (_, to) => { s with cfgTok := to, reloads := s.reloads + 1, old := if s.cfgTok == "" then s.old else s.cfgTok :: s.old }
+      | none => s
+    if r.via != "router" then (s', []) else
+    match r.mid with
+    | some (_, to) =>
+      -- a request concurrent with a reload old ↦ new: data only for a non-empty token equal to old or new
+      let cls := (kv (o.splitOn " ") "class").getD "?"
+      let t := r.vals.headD ""
+      let allowed := t != "" && (t == s.cfgTok || t == to)
+      let tcl := if !r.present then "none" else if t == "" then "empty" else "other"
+      let fails := if cls == "data" && !allowed then
+          [{ prop := "C25", sig := s!"C25:data-without-valid-token:reload-mid-request:tmpl={r.tmpl}:tok={tcl}",
+             what := s!"a reload landed during the request; it was answered with data although its token ({tcl}) is neither the old nor the new configured token" : Fail }]
+        else []
+      (s', fails)
+    | none =>
     let toks := o.splitOn " "
     let cls := (kv toks "class").getD "?"
     let body := dec ((kv toks "body").getD "%")
